@@ -244,10 +244,17 @@ func makeBid(b *BidIn, slotStartUnix int64, domain phase0.Domain) *builderspec.V
 // ---------------------------------------------------------------------------------------------
 // Mock relay clients.
 
+// call is one request that reached a relay, as the relay sees it: T is the instant (ms since the
+// auction started) at which the relay's answer was ready = the instant the request arrived + the
+// scripted latency.  Dropped: the requester (vouch) had ended the request's context before that
+// instant (the real HTTP builder client aborts the request then), at HungUp ms; the answer was never
+// delivered.  Requests that the relay never answers (hang, script exhausted) are not logged.
 type call struct {
-	T     int64 // ms since the auction started
-	Relay int
-	Call  int
+	T       int64
+	Relay   int
+	Call    int
+	Dropped bool  `json:",omitempty"`
+	HungUp  int64 `json:",omitempty"`
 }
 
 type callLog struct {
@@ -288,14 +295,17 @@ func (m *relayMock) answer(ctx context.Context) (*builderapi.Response[*buildersp
 		return nil, ctx.Err()
 	}
 	s := m.script[k]
+	arrived := time.Since(m.start)
 	timer := time.NewTimer(s.lat)
 	if m.ignoreCtx {
 		<-timer.C
 	} else {
+		// like the real HTTP client: the request is aborted when its context ends
 		select {
 		case <-timer.C:
 		case <-ctx.Done():
 			timer.Stop()
+			m.log.add(call{T: (arrived + s.lat).Milliseconds(), Relay: m.idx, Call: k, Dropped: true, HungUp: time.Since(m.start).Milliseconds()})
 			return nil, ctx.Err()
 		}
 	}
@@ -648,13 +658,17 @@ func term(id uint64, in Input, obs Obs) string {
 		served = append(served, OptN(s))
 	}
 	calls := make([]string, 0, len(obs.Calls))
+	dropped := []string{}
 	for _, c := range obs.Calls {
 		calls = append(calls, "("+Z(c.T)+", "+N(uint64(c.Relay))+", "+N(uint64(c.Call))+")")
+		if c.Dropped {
+			dropped = append(dropped, "("+Z(c.T)+", "+N(uint64(c.Relay))+", "+N(uint64(c.Call))+")")
+		}
 	}
 	return Record("c_id", N(id), "c_strat", strat, "c_mode", mode, "c_cfgs", List(cfgs), "c_relays", List(relays),
 		"c_panic", Bool(obs.Panic), "c_has_results", Bool(obs.HasResults), "c_win", win,
 		"c_providers", nList(obs.Providers), "c_allp", nList(obs.AllP), "c_parts", List(parts),
-		"c_elapsed", Z(obs.Elapsed), "c_served", List(served), "c_calls", List(calls))
+		"c_elapsed", Z(obs.Elapsed), "c_served", List(served), "c_calls", List(calls), "c_dropped", List(dropped))
 }
 
 // ---------------------------------------------------------------------------------------------
@@ -1187,10 +1201,15 @@ func TestC09(t *testing.T) {
 		cut := in.cutoff()
 		nontrivial := false
 		for _, c := range obs.Calls {
-			if c.T < cut && c.Relay < len(in.Relays) && c.Call < len(in.Relays[c.Relay].Script) && in.Relays[c.Relay].Script[c.Call].Kind == "bid" {
+			if c.T < cut && !c.Dropped && c.Relay < len(in.Relays) && c.Call < len(in.Relays[c.Relay].Script) && in.Relays[c.Relay].Script[c.Call].Kind == "bid" {
 				nontrivial = true
 			}
-			if c.T >= cut {
+			if c.Dropped {
+				col.Count("answer:dropped-by-requester")
+				if c.T < cut {
+					col.Count("answer:dropped-before-cut-off")
+				}
+			} else if c.T >= cut {
 				col.Count("answer:late")
 			} else {
 				col.Count("answer:on-time")
